@@ -200,10 +200,40 @@ def r1_decision(ctx):
     s404 = status_const_of_ctor(ctx.ds, "for_not_found")
     ctx.check(R, "for_not_found-is-404", s404 == {404}, "status constants in for_not_found: %s" % sorted(s404 or []), lr)
     # same node as the method lookup
-    gets = [(bb, t) for bb, t in lr.live_calls(r"BTreeMap::<K, V, A>::get$") if lr.slice(t["args"][0]).reads_field("methods")]
-    node_locals = set(lr.local_by_name("node"))
-    share = bool(gets) and all(set(lr.slice(t["args"][0]).locals()) & node_locals for bb, t in gets)
-    ctx.check(R, "scan-is-over-the-matched-node", share, "the per-method lookup and the 404/405 scan read `methods` of the same `node` reached by the walk: %s" % share, lr)
+    # every read of a `.methods` table after the walk — the per-method lookup, the 404/405 scan and the Allow loop — goes through
+    # the SAME node value (adversary change C04-C let the success path use the wildcard's child and the failure tail its parent)
+    import json as _json
+    bases = {}
+    for bb, t in lr.live_calls(r"BTreeMap::<K, V, A>::(get|values|iter|keys|len|contains_key)$|iter::IntoIterator::into_iter$"):
+        if not t["args"]:
+            continue
+        sl0 = lr.slice(t["args"][0], stop_at_calls=r".")
+        roots = set()
+        for pj in sl0.places:
+            pl = _json.loads(pj)
+            if any(isinstance(e, dict) and e.get("n") == "methods" for e in pl["p"]):
+                roots.add(pl["l"])
+        if roots:
+            bases[(bb, t["callee"].split("::")[-1])] = roots
+
+    def canon(l, hops=6):
+        # follow plain copies / reborrows back to the originating local
+        for _ in range(hops):
+            ds = lr.defs().get(l, [])
+            if len(ds) != 1 or ds[0][1] != "assign":
+                return l
+            rv = ds[0][2]["rv"]
+            if rv["rv"] == "use" and rv["op"].get("k") in ("copy", "move") and not rv["op"]["pl"]["p"]:
+                l = rv["op"]["pl"]["l"]
+            elif rv["rv"] == "ref" and rv["pl"]["p"] == ["*"]:
+                l = rv["pl"]["l"]
+            else:
+                return l
+        return l
+    canon_sets = {k: set(canon(l) for l in v) for k, v in bases.items()}
+    common = set.intersection(*canon_sets.values()) if canon_sets else set()
+    ctx.check(R, "scan-is-over-the-matched-node", len(canon_sets) >= 3 and bool(common),
+              "reads of a `.methods` table in lookup_route (%s) all go through one node value: %s" % (sorted(k[1] for k in canon_sets), bool(common)), lr)
     # unmatched path -> for_not_found, whatever the idiom (ok_or_else closure, match, let-else)
     ok2 = False
     walk_nf = [bb for bb, t in nf if bb not in tail]
